@@ -51,6 +51,8 @@ def check(ctx: Ctx):
         if f.rule in ("PAIR", "EFFECT") or (f.rule == "GUARDSHAPE" and f.site.endswith(":tie-break")):
             ctx.findings.append(f)
     ctx.functions |= sub_ro.functions
+    col.check_instance_containers(ctx, ("EmulsionTimeCourse", "DropletTrack"), rule="OWN")
+    col.check_weighted_mean(ctx)
     ctx.expect("EFFECT", 1)
     ctx.expect("GUARDSHAPE", 1)
     col.check_order_free(ctx)
@@ -58,7 +60,7 @@ def check(ctx: Ctx):
     col.check_self_alias_iteration(ctx)
     col.check_statistics(ctx)
     col.check_trajectory_axis(ctx)
-    ctx.expect("STAT", 7)
+    ctx.expect("STAT", 8)
     ctx.expect("COPYALL", 2)
     # merging members in place (out aliases the first operand) equals the out-of-place merge
     from . import c11
